@@ -785,7 +785,18 @@ class Sym:
         return f'Sym({show(self.n, 4)})'
 
     def __format__(self, spec):
+        # a number formatted into text by the code under contract: with a numeric format spec the text carries a
+        # token of the node (`parse_tokens` maps printed cells back to their values); plain '{}' keeps the repr
+        if spec and spec[-1] in 'eEfFgG%':
+            return f'\u27e8{self.n.id}\u27e9'
         return repr(self)
+
+
+def parse_token(text):
+    """the symbolic value a formatted cell stands for (see Sym.__format__), or None"""
+    import re
+    m = re.fullmatch(r'\s*\u27e8(\d+)\u27e9\s*', text)
+    return Sym(CTX.nodes[int(m.group(1))]) if m else None
 
 
 class SymBool:
